@@ -173,6 +173,9 @@ def ctor_oracle(kind, na, nv, nd, ni, lb, ub, res):
         return 'population size %r != %r' % (res['n_agents'], na)
     if not res['best_distinct']:
         return 'best agent shares storage with an agent'
+    if [unkey(k) for k in res['space_lb']] != [float(v) for v in lb] or [unkey(k) for k in res['space_ub']] != [float(v) for v in ub]:
+        return 'the space\'s bounds %r / %r differ from the declared bounds %r / %r' % (
+            [unkey(k) for k in res['space_lb']], [unkey(k) for k in res['space_ub']], list(lb), list(ub))
     for a, shp in zip(res['agents'], res['shapes']):
         if shp != [int(nv), int(nd)]:
             return 'shape %r' % shp
@@ -186,6 +189,23 @@ def ctor_oracle(kind, na, nv, nd, ni, lb, ub, res):
                 if not (elb[j] <= x <= eub[j]):
                     return 'initial coordinate %r outside [%r, %r]' % (x, elb[j], eub[j])
     return None
+
+
+def ctor_build(kind, na, nv, nd, ni, lb, ub):
+    try:
+        if kind == 'search':
+            s = SearchSpace(n_agents=na, n_variables=nv, n_iterations=ni, lower_bound=lb, upper_bound=ub)
+        elif kind == 'hyper':
+            s = HyperSpace(n_agents=na, n_variables=nv, n_dimensions=nd, n_iterations=ni, lower_bound=lb, upper_bound=ub)
+        else:
+            s = TreeSpace(n_trees=na, n_terminals=2, n_variables=nv, n_iterations=ni, min_depth=1, max_depth=2,
+                          functions=['SUM'], lower_bound=lb, upper_bound=ub)
+        return {'agents': [{'pos': keys2d(a.position), 'lb': keys2d(a.lb), 'ub': keys2d(a.ub)} for a in s.agents],
+                'space_lb': keys2d(s.lb), 'space_ub': keys2d(s.ub), 'n_agents': len(s.agents),
+                'best_distinct': all(s.best_agent is not a and not np.shares_memory(s.best_agent.position, a.position) for a in s.agents),
+                'shapes': [list(a.position.shape) for a in s.agents]}
+    except Exception as ex:  # noqa: BLE001
+        return {'err': hlib.exc_kind(ex), 'msg': str(ex)[:200]}
 
 
 def enc(v):
@@ -222,6 +242,14 @@ def ctor_cases():
         nvi = nv if isinstance(nv, int) and not isinstance(nv, bool) and nv > 0 else 2
         lb = [r.choice([-10.0, 0.0, -1e-3, 5.0, -1e6]) for _ in range(max(0, nvi + dl))]
         ub = [(lb[j] if j < len(lb) else 0.0) + r.choice([0.0, 1.0, 1e-9, 20.0, 1e6]) for j in range(max(0, nvi + du))]
+        # bound lists of mixed Python types: all-int lower bounds with fractional upper bounds (and vice versa), int/int
+        typing = r.choice(['float', 'float', 'int_lb', 'int_ub', 'int_both'])
+        if typing in ('int_lb', 'int_both'):
+            lb = [int(r.choice([-10, 0, -3, 5, 2])) for _ in lb]
+            ub = [(lb[j] if j < len(lb) else 0) + r.choice([0.75, 2.5, 0.5, 20.25, 1e-3] if typing == 'int_lb' else [0, 1, 20, 3]) for j in range(len(ub))]
+        elif typing == 'int_ub':
+            ub = [int(r.choice([7, 10, 12, 100])) for _ in ub]
+            lb = [(ub[j] if j < len(ub) else 0) - r.choice([0.75, 2.5, 0.5, 20.25, 1e-3]) for j in range(len(lb))]
         mode = r.choice(['low', 'high', 'mid', 'rand'])
 
         def fn(low, high, n, mode=mode):
@@ -237,25 +265,12 @@ def ctor_cases():
 
         res = {}
         with hlib.ScriptedUniform(fn) as su:
-            try:
-                if kind == 'search':
-                    s = SearchSpace(n_agents=na, n_variables=nv, n_iterations=ni, lower_bound=lb, upper_bound=ub)
-                elif kind == 'hyper':
-                    s = HyperSpace(n_agents=na, n_variables=nv, n_dimensions=nd, n_iterations=ni, lower_bound=lb, upper_bound=ub)
-                else:
-                    s = TreeSpace(n_trees=na, n_terminals=2, n_variables=nv, n_iterations=ni, min_depth=1, max_depth=2,
-                                  functions=['SUM'], lower_bound=lb, upper_bound=ub)
-                res = {'agents': [{'pos': keys2d(a.position), 'lb': keys2d(a.lb), 'ub': keys2d(a.ub)} for a in s.agents],
-                       'space_lb': keys2d(s.lb), 'space_ub': keys2d(s.ub), 'n_agents': len(s.agents),
-                       'best_distinct': all(s.best_agent is not a and not np.shares_memory(s.best_agent.position, a.position) for a in s.agents),
-                       'shapes': [list(a.position.shape) for a in s.agents]}
-            except Exception as ex:  # noqa: BLE001
-                res = {'err': hlib.exc_kind(ex), 'msg': str(ex)[:200]}
+            res = ctor_build(kind, na, nv, nd, ni, lb, ub)
             draws = [[key(v) for v in c[3]] for c in su.calls]
         res_oracle = ctor_oracle(kind, na, nv, nd, ni, lb, ub, res)
         cases.append({'kind': kind, 'oracle': res_oracle, 'n_agents': enc(na), 'n_vars': enc(nv), 'n_dims': enc(nd), 'n_iters': enc(ni),
                       'lb': [key(v) for v in lb], 'ub': [key(v) for v in ub], 'draws': draws, 'res': res,
-                      'raw': [repr(na), repr(nv), repr(nd), repr(ni), len(lb), len(ub), mode]})
+                      'raw': [repr(na), repr(nv), repr(nd), repr(ni), len(lb), len(ub), mode, typing, repr(lb), repr(ub)]})
     return cases
 
 
